@@ -1,6 +1,6 @@
 (* C18 driver: tie (i) of C18 - the access sites of the current source against Model/Race.v Parts 4 and 5.
 
-   graph e:<call|spawn|send>:<from>:<to> ... f:<struct>:<field>:<type> ...
+   graph e:<call|spawn|send>:<from>:<to> ... f:<struct>:<field>:<type> ... s:<func>:<type>:<field>:<r|w> ...
                                        the call graph of package service and the declared fields of the statically placed
                                        structs (kept by the driver: its one piece of state)
    site  <func> <type> <field> <r|w>   the goroutine class reaching <func> (roots by the model's table, static calls stay in
@@ -33,30 +33,31 @@ let init () =
        graph e:<call|spawn|send>:<from>:<to> ...
      the driver keeps it (the one piece of state of this oracle) and answers the following short requests with it:
        site <func> <type> <field> <r|w>     spawn <from> <to>     send <from> <to>     cap <closure> <var> <r|w> *)
-  let graph : (gedge list * gdecl list) option ref = ref None in
+  let graph : (gedge list * gdecl list * gsite list) option ref = ref None in
   let str l = Stdlib.String.init (Stdlib.List.length l) (fun i -> Char.chr (int_of_n (Stdlib.List.nth l i))) in
   let cls m f = "{" ^ Stdlib.String.concat "," (Stdlib.List.map gname (cm_get f m)) ^ "}" in
-  let with_graph k = match !graph with None -> "no graph loaded (the `graph ...` request comes first)" | Some (es, ds) -> k ds (classes_of es) in
+  let with_graph k = match !graph with None -> "no graph loaded (the `graph ...` request comes first)" | Some (es, ds, ss) -> k (ds, ss) (classes_of es) in
   register "graph" (fun args ->
-    let es = ref [] and ds = ref [] in
+    let es = ref [] and ds = ref [] and ss = ref [] in
     Stdlib.List.iter (fun a ->
       match Stdlib.String.split_on_char ':' a with
       | ["e"; k; f; t] ->
         let kind = (match k with "call" -> KCall | "spawn" -> KSpawn | "send" -> KSendLit | _ -> failwith ("edge kind " ^ k)) in
         es := { e_kind = kind; e_from = codes f; e_to = codes t } :: !es
       | ["f"; st; fld; ty] -> ds := { d_struct = codes st; d_field = codes fld; d_type = codes ty } :: !ds
+      | ["s"; f; ty; fld; rw] -> ss := { s_fun = codes f; s_type = codes ty; s_field = codes fld; s_write = (rw = "w") } :: !ss
       | _ -> failwith ("bad item " ^ a)) args;
-    graph := Some (Stdlib.List.rev !es, Stdlib.List.rev !ds); "graph-loaded");
+    graph := Some (Stdlib.List.rev !es, Stdlib.List.rev !ds, Stdlib.List.rev !ss); "graph-loaded");
   register "site" (fun args ->
     match args with
     | [f; ty; fld; rw] when rw = "r" || rw = "w" ->
-      with_graph (fun ds m ->
+      with_graph (fun (ds, ss) m ->
         let s = { s_fun = codes f; s_type = codes ty; s_field = codes fld; s_write = (rw = "w") } in
-        match check_site ds m s with
+        match check_site ds ss m s with
         | [] -> "modelled"
         | PSiteNoClass _ :: _ -> "NOT-MODELLED: the function is reached from no root of the model"
         | PSiteTwoClasses _ :: _ -> "NOT-MODELLED: the function is reached by goroutine classes " ^ cls m s.s_fun
-        | PSiteUnknownField _ :: _ -> "NOT-MODELLED: the field has no location in the model"
+        | PSiteUnknownField _ :: _ -> "NOT-MODELLED: the field has no location in the model (not a known name, and not recognisable as a renamed model field by struct, declared type and usage)"
         | _ -> "NOT-MODELLED: the model has no such access by " ^ cls m s.s_fun)
     | _ -> "bad-request");
   let edge_op kind name = register name (fun args ->
